@@ -44,3 +44,64 @@ extern "C" void h_array(void) {
         else { auto v = readBinaryC0nnArray(*f, count, C0ES); CHECK((std::int64_t) v.size() == count); }
     } catch (const std::exception&) { }
 }
+// opening an arbitrary byte string as a result file through the public constructor: EclFile::load walks the headers, sizes every array with
+// sizeOnDiskBinary and seeks over it; with preload the arrays are read as well
+#include <opm/io/eclipse/EclFile.hpp>
+#ifndef PRELOAD
+#define PRELOAD 0
+#endif
+#ifndef TAGCLASS
+#define TAGCLASS 0
+#endif
+#ifndef MAXCOUNT
+#define MAXCOUNT 255
+#endif
+extern "C" void h_load(void) {
+    verif_memfile(NBYTES); verif_memfile_name(1, "ANY.UNRST");
+    // bound: the first header announces a negative count or at most MAXCOUNT elements (the size arithmetic for every count is the subject
+    // of the C07 size jobs; here the point is what an arbitrary header makes the loader do)
+    { unsigned b0 = verif_memfile_byte(1, 12), b1 = verif_memfile_byte(1, 13), b2 = verif_memfile_byte(1, 14), b3 = verif_memfile_byte(1, 15);
+      ASSUME((b0 & 0x80) || (b0 == 0 && b1 == 0 && b2 == 0 && b3 <= MAXCOUNT)); }
+#if TAGCLASS == 1
+    ASSUME(verif_memfile_byte(1, 16) != 'C');          // the five fixed-size types, MESS, X231 and every unknown tag
+#elif TAGCLASS == 2
+    // C0nn tags: element size digits over a small alphabet that reaches every shape stoi distinguishes (zero, small, > 77, three digits,
+    // blank-padded, signed, not a number); keeps the element size concrete on each path (a symbolic divisor stalls every solver)
+    ASSUME(verif_memfile_byte(1, 16) == 'C');
+    for (int i = 17; i < 20; ++i) { unsigned char c = verif_memfile_byte(1, i); ASSUME(c == '0' || c == '1' || c == '9' || c == ' ' || c == '-' || c == 'x'); }
+#endif
+#if PRELOAD
+    // bound for the element loops of the array readers: the first data record announces at most 32 bytes (or a negative size)
+    { unsigned b0 = verif_memfile_byte(1, 24), b1 = verif_memfile_byte(1, 25), b2 = verif_memfile_byte(1, 26), b3 = verif_memfile_byte(1, 27);
+      ASSUME((b0 & 0x80) || (b0 == 0 && b1 == 0 && b2 == 0 && b3 <= 32)); }
+#endif
+    try {
+        EclFile f(std::string("ANY.UNRST"), PRELOAD != 0);
+        auto l = f.getList();
+        CHECK(l.size() >= 1 || NBYTES == 0);
+    } catch (const std::exception&) { }
+}
+// a formatted result file: one header line of the published shape whose count field and type tag are arbitrary over the stated alphabets,
+// followed by arbitrary bytes; opened through the public constructor (EclFile::load: readFormattedHeader, sizeOnDiskFormatted, seek)
+#ifndef CNTCHARS
+#define CNTCHARS 3
+#endif
+extern "C" void h_load_formatted(void) {
+    const unsigned long L = 36;            // " 'SEQNUM  '" + 17-character count field + " 'TYPE'\n"
+    const char* head = " 'SEQNUM  '";
+    verif_memfile(L + NBYTES);
+    for (unsigned long i = 0; i < L; ++i) {
+        if (i < 11) verif_memfile_setbyte(1, i, (unsigned char) head[i]);
+        else if (i < 28) { unsigned char c = verif_memfile_byte(1, i); ASSUME(c == ' ' || c == '-' || c == '0' || c == '1' || c == '3' || c == '9'); if (i < 28 - CNTCHARS) ASSUME(c == ' '); }   // count: CNTCHARS significant characters
+        else if (i == 28) verif_memfile_setbyte(1, i, ' ');
+        else if (i == 29 || i == 34) verif_memfile_setbyte(1, i, '\'');
+        else if (i == 35) verif_memfile_setbyte(1, i, '\n');
+        else { unsigned char c = verif_memfile_byte(1, i); ASSUME(c == 'I' || c == 'N' || c == 'T' || c == 'E' || c == 'C' || c == '0' || c == '7' || c == '8' || c == '9' || c == '-' || c == ' '); }   // type tag
+    }
+    verif_memfile_name(1, "ANY.FUNRST");
+    try {
+        EclFile f(std::string("ANY.FUNRST"), false);
+        auto l = f.getList();
+        CHECK(l.size() >= 1);
+    } catch (const std::exception&) { }
+}
